@@ -237,6 +237,32 @@ func colWalk(r *vx.Run, in input) {
 		fail("walk:"+diffClass(all, want)+":"+cls, fmt.Sprintf("pages %v, expected the concatenation to be %v", pagesData(pages), want))
 		return
 	}
+	// the library's own client, bunpaginate.Iterate, sees the same enumeration
+	{
+		var got []int64
+		calls := 0
+		err := bunpaginate.Iterate(context.Background(), q0.realCol(),
+			func(ctx context.Context, q colQuery) (*sharedapi.Cursor[item], error) {
+				calls++
+				if calls > bound {
+					return nil, fmt.Errorf("harness: step bound")
+				}
+				return bunpaginate.UsingColumn[colOpts, item](ctx, db.NewSelect().Table("items"), q)
+			},
+			func(c *sharedapi.Cursor[item]) error {
+				got = append(got, keysOf(c.Data)...)
+				return nil
+			})
+		if err != nil {
+			fail("iterate:error:"+cls, err.Error())
+			return
+		}
+		if !eqKeys(got, want) {
+			fail("iterate:"+diffClass(got, want)+":"+cls, fmt.Sprintf("Iterate saw %v, expected %v", got, want))
+			return
+		}
+		r.Count("iterate-ok")
+	}
 	if len(in.Rows) > 0 && len(pages[len(pages)-1].Data) == 0 {
 		fail("walk:empty-last-page:"+cls, "the last page is empty")
 		return
@@ -263,6 +289,10 @@ func colWalk(r *vx.Run, in input) {
 			var pq colQuery
 			if err := bunpaginate.UnmarshalCursor(at.PrevRaw, &pq); err != nil {
 				fail("cursor-rejected:previous:"+cls, err.Error())
+				return
+			}
+			if at.Prev == nil {
+				fail("previous:unreadable-cursor:"+cls, at.PrevRaw)
 				return
 			}
 			p := callCol(db, pq)
@@ -574,4 +604,3 @@ func pageSizeOne(r *vx.Run, in input) {
 	r.Case(fmt.Sprintf("CasePageSize %d%%N %d%%N %s %s", in.Default, in.Max, p, res), in, fmt.Sprintf("pagesize/%d/%d/%s", in.Default, in.Max, pv), true)
 }
 
-var _ = sharedapi.Cursor[item]{}
